@@ -164,6 +164,7 @@ impl Scenario for MarketHistory {
                         obs.probe("model_panic_caught");
                     }
                     obs.outcome(out.role, out.op, &out.class);
+                    obs.probe(&format!("outcome:{}:{}", out.op, out.class));
                     obs.event(|| describe(&out));
                     c04::after_step(&w, &out, obs);
                     c05::after_step(&w, &out, obs);
